@@ -88,7 +88,7 @@ HAND_BINS = [
 def bin_specs(tier):
     q = tier == "quick"
     ns = [2, 3, 5, 65, 101] if q else [2, 3, 4, 5, 9, 33, 65, 101, 255]
-    ranges = [(-1, 1), (-5, 5), (-10, 10), (-2, 6)]
+    ranges = [(-1, 1), (-5, 5), (-10, 10), (-2, 6), (-6, 2)]  # symmetric, larger positive side, larger negative side
     if not q:
         ranges += [(-12, 12), (0, 10), (-10, 0), (-0.5, 0.5), (3, 7), (-7, -3)]
     out = [dict(kind="symexp", tag=f"n{n}_{lo}_{hi}", n=n, lo=float(lo), hi=float(hi)) for n in ns for lo, hi in ranges]
@@ -643,7 +643,7 @@ def work_sched(item, col):
     L = lib()
     fn = L["sched"].linear_schedule
     full = item["full"]
-    fracs = [0.01, 0.05, 0.1, 0.5, 1.0]
+    fracs = [0.01, 0.05, 0.1, 0.3, 0.5, 0.75, 1.0]  # 0.3 and 0.75 are no unit fractions 1/n
     pairs = [(1.0, 0.1), (0.4, 1.0)]
     if full:
         fracs = [0.001, 0.01, 0.02, 0.05, 0.1, 0.25, 1.0 / 3.0, 0.5, 0.75, 0.9, 0.99, 1.0]
